@@ -34,6 +34,19 @@ result_type = _np.result_type
 promote_types = _np.promote_types
 issubdtype = _np.issubdtype
 _F8 = _np.dtype("float64")
+_F4 = _np.dtype("float32")
+
+
+def _f32_cell(c):
+    """a value stored at single precision: the real rounding for a concrete float, an uninterpreted F32(x) for a symbolic one
+    (nothing is assumed about it, so a claim that needs F32(x) == x is not provable -- a narrowing store is visible)"""
+    if isinstance(c, (bool, _np.bool_)):
+        return 1.0 if c else 0.0
+    if isinstance(c, (int, float, _np.integer, _np.floating)):
+        return float(_np.float32(c))
+    if isinstance(c, SN):
+        return core.uf("F32", c)
+    return c
 _I8 = _np.dtype("int64")
 _B1 = _np.dtype("bool")
 _OBJ = _np.dtype("O")
@@ -159,6 +172,11 @@ class SymArray:
 
     def astype(self, dt, copy=True):
         dt = _np.dtype(dt)
+        if dt == _F4 and self.dtype != _F4:
+            out = self.a.copy()
+            for idx in _np.ndindex(out.shape):
+                out[idx] = _f32_cell(out[idx])
+            return SymArray(out, dt)
         if dt.kind == "f":
             out = self.a.copy()
             for idx in _np.ndindex(out.shape):
@@ -312,6 +330,9 @@ class SymArray:
                     raise UnsupportedByShim("symbolic value stored in a text array")
                 return str(c)[:width]
             v = _np.array([conv(c) for c in v.flat], dtype=object).reshape(v.shape) if isinstance(v, _np.ndarray) else conv(v)
+        elif dt is not None and dt == _F4:
+            # single-precision array: what is stored is rounded to float32
+            v = _np.array([_f32_cell(c) for c in v.flat], dtype=object).reshape(v.shape) if isinstance(v, _np.ndarray) else _f32_cell(v)
         self.a[kk] = v
 
     # -- arithmetic
